@@ -96,6 +96,21 @@ Qed.
 Lemma memZ_map_abs : forall d0 i l, memZ i (map si_id (map (abs_iso d0) l)) = memZ i (map i_id l).
 Proof. intros. rewrite map_map. simpl. reflexivity. Qed.
 
+Definition abs_iso_of (ip : list prow) (idt : list drow) (i : irow) : siso :=
+  mkSI (i_id i) (i_ty i) (i_mat i) (i_ads i) (i_temp i)
+       (map (fun p => (p_ty p, check_bool (p_val p))) (filter (fun p => p_own p =? i_id i) ip))
+       (map (fun r => (d_ty r, d_dty r, d_data r)) (filter (fun r => d_iso r =? i_id i) idt)).
+Lemma map_abs_filter : forall ip idt i l,
+  map (abs_iso_of (filter (fun r => negb (p_own r =? i)) ip) (filter (fun r => negb (d_iso r =? i)) idt)) (filter (fun r => negb (i_id r =? i)) l)
+  = filter (fun x => negb (si_id x =? i)) (map (abs_iso_of ip idt) l).
+Proof.
+  induction l as [|x l IH]; simpl; auto.
+  destruct (i_id x =? i) eqn:Ex; simpl.
+  - apply IH.
+  - f_equal; [|apply IH]. unfold abs_iso_of. apply Z.eqb_neq in Ex.
+    rewrite (filter_filter_other _ p_own i (i_id x)), (filter_filter_other _ d_iso i (i_id x)); auto.
+Qed.
+
 Theorem iso_delete_refines : forall i d r,
   match s_iso_delete i (abs d) with
   | Some s' => fst (fst (fst (run_op (IsoDel i) d r))) = OOk RUnit /\ abs (snd (fst (fst (run_op (IsoDel i) d r)))) = s'
@@ -106,12 +121,7 @@ Proof.
   destruct (memZ i (map i_id (isos d))) eqn:Em; simpl.
   - unfold del_iso. simpl. rewrite (existsb_filter_neg _ p_own), (existsb_filter_neg _ d_iso). simpl.
     split; [reflexivity|]. unfold abs, set_iso, set_sisos. simpl. f_equal.
-    induction (isos d) as [|x l IH]; simpl; auto.
-    destruct (i_id x =? i) eqn:Ex; simpl.
-    + Show. apply IH.
-    + f_equal; [|apply IH].
-      unfold abs_iso. simpl. apply Z.eqb_neq in Ex.
-      rewrite (filter_filter_other _ p_own i (i_id x)), (filter_filter_other _ d_iso i (i_id x)); auto.
+    exact (map_abs_filter (iprops d) (idata d) i (isos d)).
   - split; reflexivity.
 Qed.
 
